@@ -575,7 +575,7 @@ def run(ck):
     # gives an independent reference (Gauss-Legendre quadrature of the ellipsoid integrals I_i, I_ij; agreement on the
     # unchanged code is ~1e-13) and the defining identities P0:C0 = S (same invariants in any orientation, same tensor
     # for an inclusion along a frame axis) and A:(I + P0:(Ci-C0)) = I are evaluated on the returned tensors.
-    import c25num
+    from checks import c25num
     num = ck.cxx("c25e", ["C25/eshelby.cxx"] + srcs, opt="-O1")
     NTOL = 1e-9
     nreq = []
